@@ -132,6 +132,13 @@ func VerifC07_DecodeStep() {
 	case want.need:
 		vf.Reach("need-more")
 		vf.Assert("need-more", vf.All(f == nil, err == sonicerrors.ErrNeedMore, !c.decodeReset))
+		if want.total > 0 {
+			// the size of the frame is known: the buffer must be able to hold all of it, otherwise the
+			// transport read that follows is zero-length for ever and the frame is never delivered
+			_, _, _, ncap := sonic.VerifBufState(src)
+			vf.Reach("need-payload")
+			vf.Assert("room-for-the-whole-frame", ncap-nsi >= want.total)
+		}
 	case want.over:
 		vf.Reach("over-max")
 		vf.Assert("over-max-is-error", vf.All(f == nil, err != nil, err != sonicerrors.ErrNeedMore, !c.decodeReset))
